@@ -105,6 +105,7 @@ type interpreter struct {
 	panicActive  bool
 	depthCalls   int
 	frozenLocal  map[*value]struct{}
+	overrides    map[string]value
 }
 
 type deferred struct {
@@ -496,6 +497,11 @@ func callSSA(i *interpreter, caller *frame, callpos token.Pos, fn *ssa.Function,
 		i:      i,
 		caller: caller, // for panic/recover
 		fn:     fn,
+	}
+	if i.overrides != nil && fn.Parent() == nil {
+		if repl, ok := i.overrides[fn.String()]; ok {
+			return call(i, caller, callpos, repl, args)
+		}
 	}
 	if i.isIntrinsic(fn) {
 		saved := i.top
